@@ -190,7 +190,8 @@ fn site_tag(fmt: &str, file: &str, line: u32, msg: &str) -> String {
             .map(|(a, _)| a.rsplit('/').next().unwrap_or(a).to_string())
             .unwrap_or_else(|| file.to_string());
         let tail = file.rsplit('/').next().unwrap_or(file).trim_end_matches(".rs");
-        format!("panic-{fmt}-dep-{}-{}-{}", slug(&dep, 24), slug(tail, 16), slug(&msg_class, 40))
+        let fam = if fmt.starts_with("codec-") { "cram-codec" } else { fmt };
+        format!("panic-{fam}-dep-{}-{}-{}", slug(&dep, 24), slug(tail, 16), slug(&msg_class, 40))
     }
 }
 
@@ -204,44 +205,85 @@ enum Ran {
     TooLarge(usize, &'static str),
 }
 
-fn watchdog(f: impl FnOnce() -> String + Send + 'static) -> Ran {
+type Job = Box<dyn FnOnce() -> String + Send + 'static>;
+
+/// A reusable decoder thread (one per harness thread); abandoned and replaced after a hang or an
+/// oversized allocation (the stuck thread cannot be killed).
+struct Worker {
+    tx: mpsc::Sender<Job>,
+    rx: mpsc::Receiver<Ran>,
+    flag: Arc<AtomicUsize>,
+    stage: Arc<AtomicUsize>,
+}
+
+/// number of decoder threads of this process that never came back (spinning or parked)
+static STUCK: AtomicUsize = AtomicUsize::new(0);
+static SPINNING: AtomicUsize = AtomicUsize::new(0);
+
+fn spawn_worker() -> Option<Worker> {
     install_hook();
     let flag = Arc::new(AtomicUsize::new(0));
-    let flag2 = flag.clone();
     let stage = Arc::new(AtomicUsize::new(0));
-    let stage2 = stage.clone();
-    let (tx, rx) = mpsc::sync_channel::<Ran>(1);
-    let th = std::thread::Builder::new().stack_size(16 << 20).spawn(move || {
-        GUARD_FLAG.with(|c| c.set(Arc::as_ptr(&flag2)));
-        c15_decode::STAGE_PTR.with(|c| c.set(Arc::as_ptr(&stage2)));
-        LAST_PANIC.with(|c| *c.borrow_mut() = None);
-        let r = match panic::catch_unwind(AssertUnwindSafe(f)) {
-            Ok(s) => Ran::Done(s),
-            Err(_) => {
-                let (file, line, msg) = LAST_PANIC.with(|c| c.borrow_mut().take()).unwrap_or_default();
-                Ran::Panic { file, line, msg }
+    let (flag2, stage2) = (flag.clone(), stage.clone());
+    let (jtx, jrx) = mpsc::channel::<Job>();
+    let (rtx, rrx) = mpsc::sync_channel::<Ran>(1);
+    std::thread::Builder::new()
+        .stack_size(8 << 20)
+        .spawn(move || {
+            GUARD_FLAG.with(|c| c.set(Arc::as_ptr(&flag2)));
+            c15_decode::STAGE_PTR.with(|c| c.set(Arc::as_ptr(&stage2)));
+            while let Ok(job) = jrx.recv() {
+                LAST_PANIC.with(|c| *c.borrow_mut() = None);
+                let r = match panic::catch_unwind(AssertUnwindSafe(job)) {
+                    Ok(s) => Ran::Done(s),
+                    Err(_) => {
+                        let (file, line, msg) = LAST_PANIC.with(|c| c.borrow_mut().take()).unwrap_or_default();
+                        Ran::Panic { file, line, msg }
+                    }
+                };
+                if rtx.send(r).is_err() {
+                    break;
+                }
             }
-        };
-        GUARD_FLAG.with(|c| c.set(std::ptr::null()));
-        c15_decode::STAGE_PTR.with(|c| c.set(std::ptr::null()));
-        let _ = tx.send(r);
-        drop(flag2);
-        drop(stage2);
-    });
-    if th.is_err() {
-        return Ran::Done("spawn-failed".into());
+            GUARD_FLAG.with(|c| c.set(std::ptr::null()));
+            c15_decode::STAGE_PTR.with(|c| c.set(std::ptr::null()));
+            drop((flag2, stage2));
+        })
+        .ok()?;
+    Some(Worker { tx: jtx, rx: rrx, flag, stage })
+}
+
+thread_local! {
+    static WORKER: RefCell<Option<Worker>> = const { RefCell::new(None) };
+}
+
+fn watchdog(f: impl FnOnce() -> String + Send + 'static) -> Ran {
+    let w = WORKER.with(|c| c.borrow_mut().take()).or_else(spawn_worker);
+    let Some(w) = w else { return Ran::Done("spawn-failed".into()) };
+    w.flag.store(0, Ordering::SeqCst);
+    w.stage.store(0, Ordering::SeqCst);
+    if w.tx.send(Box::new(f)).is_err() {
+        return Ran::Done("lost".into());
     }
     let t0 = Instant::now();
     loop {
-        match rx.recv_timeout(Duration::from_millis(20)) {
-            Ok(r) => return r,
+        match w.rx.recv_timeout(Duration::from_millis(20)) {
+            Ok(r) => {
+                WORKER.with(|c| *c.borrow_mut() = Some(w));
+                return r;
+            }
             Err(mpsc::RecvTimeoutError::Timeout) => {
-                let n = flag.load(Ordering::SeqCst);
-                let st = c15_decode::STAGES[stage.load(Ordering::Relaxed).min(c15_decode::STAGES.len() - 1)];
+                let n = w.flag.load(Ordering::SeqCst);
+                let st = c15_decode::STAGES[w.stage.load(Ordering::Relaxed).min(c15_decode::STAGES.len() - 1)];
                 if n != 0 {
+                    STUCK.fetch_add(1, Ordering::SeqCst);
+                    std::mem::forget(w);
                     return Ran::TooLarge(n, st);
                 }
                 if t0.elapsed() > Duration::from_secs(5) {
+                    STUCK.fetch_add(1, Ordering::SeqCst);
+                    SPINNING.fetch_add(1, Ordering::SeqCst);
+                    std::mem::forget(w);
                     return Ran::Hang(st);
                 }
             }
@@ -442,7 +484,7 @@ fn gen_mutations(rng: &mut Rng, thorough: bool, w: &mut CaseWriter, kind: &str, 
     push_mut(w, kind, fmt, "id", 0, 0);
     let text = is_text(fmt);
     // (a) single-byte substitutions
-    if thorough && n <= 1600 {
+    if thorough && n <= 1600 && fmt != "vcfgz" {
         for pos in 0..n {
             for val in 0..=255u64 {
                 if val != p[pos as usize] as u64 {
@@ -840,9 +882,16 @@ fn run_codec(name: String, us: usize, bytes: Vec<u8>) -> Obs {
     let shown = bytes.clone();
     let n2 = name.clone();
     let ran = watchdog(move || c15_decode::codec(&n2, &bytes, us));
-    let family = name.trim_end_matches(|c: char| c.is_ascii_digit()).to_string();
-    let _ = family;
-    verdict(&format!("codec-{name}"), ran, &|| format!("craw {name} {us} {}", short_hex(&shown)))
+    let family = if name.starts_with("rans4x8") {
+        "rans4x8"
+    } else if name.starts_with("nx16") {
+        "nx16"
+    } else if name.starts_with("aac") {
+        "aac"
+    } else {
+        name.as_str()
+    };
+    verdict(&format!("codec-{family}"), ran, &|| format!("craw {name} {us} {}", short_hex(&shown)))
 }
 
 // --- modelled kinds
@@ -938,6 +987,11 @@ fn run_rfreq(table: Vec<u8>) -> Obs {
 }
 
 fn run(c: &Case) -> Obs {
+    if SPINNING.load(Ordering::SeqCst) >= 3 && std::env::var("C15_INNER").is_ok() {
+        // too many runaway decoder threads in this process: let the supervisor run the rest of the
+        // chunk in a fresh process (otherwise they starve the watchdog of the remaining cases)
+        return Obs { obs: "-".into(), verdict: "retry".into(), nontrivial: false };
+    }
     match c.kind.as_str() {
         "mut" | "iq" | "cmut" => {
             let fmt = c.args[0].clone();
@@ -1001,7 +1055,24 @@ fn run_chunk(exe: &std::path::Path, dir: &std::path::Path, lines: &[String], dep
     let _ = std::fs::remove_file(&cf);
     let _ = std::fs::remove_file(&of);
     match res {
-        Some(text) if text.lines().count() == lines.len() => out.extend(text.lines().map(|l| l.to_string())),
+        Some(text) if text.lines().count() == lines.len() => {
+            let mut again = Vec::new();
+            for (l, c) in text.lines().zip(lines) {
+                if l.split('\t').nth(2) == Some("retry") {
+                    again.push(c.clone());
+                } else {
+                    out.push(l.to_string());
+                }
+            }
+            if !again.is_empty() && again.len() < lines.len() {
+                run_chunk(exe, dir, &again, depth + 1, out);
+            } else {
+                for c in again {
+                    let id = c.split('\t').next().unwrap_or("?");
+                    out.push(format!("{id}\t-\tfail harness-retry-exhausted\t1"));
+                }
+            }
+        }
         _ => {
             if lines.len() == 1 {
                 let mut it = lines[0].split('\t');
@@ -1026,7 +1097,7 @@ fn supervise(cases: &str, outp: &str) {
     let dir = std::env::temp_dir().join(format!("c15-{}", std::process::id()));
     std::fs::create_dir_all(&dir).unwrap();
     let mut out = Vec::with_capacity(lines.len());
-    for chunk in lines.chunks(100_000) {
+    for chunk in lines.chunks(60_000) {
         run_chunk(&exe, &dir, chunk, 0, &mut out);
     }
     let _ = std::fs::remove_dir_all(&dir);
